@@ -22,6 +22,7 @@ func (w *shared) sendEvent(e Event) bool {
 	if e.Op == 0 {
 		return true
 	}
+	verifSend(w)
 	select {
 	case <-w.done:
 		return false
@@ -35,6 +36,7 @@ func (w *shared) sendError(err error) bool {
 	if err == nil {
 		return true
 	}
+	verifSend(w)
 	select {
 	case <-w.done:
 		return false
